@@ -108,7 +108,22 @@ def renames_in(fn: ast.FunctionDef, project: Optional[Project] = None, modname: 
                 if isinstance(target, Func) and target.node is not fn:
                     hp = params_of(target.node)
                     hb = {}
-                    for i, a in enumerate(n.args):
+                    # *CONST / *reversed(CONST) with a module-level tuple of strings: spelled-out arguments
+                    pos_args: List[ast.AST] = []
+                    for a in n.args:
+                        if isinstance(a, ast.Starred):
+                            inner, rev = a.value, False
+                            if isinstance(inner, ast.Call) and isinstance(inner.func, ast.Name) and inner.func.id in ("reversed", "tuple", "list") and len(inner.args) == 1:
+                                rev, inner = inner.func.id == "reversed", inner.args[0]
+                            vals = project.resolve(modname, inner.id) if isinstance(inner, ast.Name) else None
+                            if isinstance(vals, (tuple, list)) and all(isinstance(x, str) for x in vals):
+                                vals = list(reversed(vals)) if rev else list(vals)
+                                pos_args.extend(ast.Constant(value=x) for x in vals)
+                                continue
+                            pos_args.append(a)
+                        else:
+                            pos_args.append(a)
+                    for i, a in enumerate(pos_args):
                         if i < len(hp):
                             v = _fold_str(a, bind)
                             if v is not None:
@@ -404,15 +419,39 @@ def validate_overrides(schema: Schema):
     return out
 
 
-def chains_to_super(fn: ast.FunctionDef, method: str, star_args=True) -> Tuple[bool, str]:
-    """every path from entry to a normal return passes a statement calling super().<method>
-    (with *args/**kwargs forwarded when star_args)"""
+def chains_to_super(fn: ast.FunctionDef, method: str, star_args=True, ci: Optional[ClassInfo] = None) -> Tuple[bool, str]:
+    """every path from entry to a normal return passes a statement calling the inherited <method>:
+    super().<method>(...), or - when the class is given - <Base>.<method>(...) spelled out, where <Base> is a class of
+    the MRO whose <method> is the very function super() would select (with *args/**kwargs forwarded when star_args).
+    The function analysed is the flattened one when the class is given (a private helper may make the call)."""
+    from .source import ClassInfo as _CI
+
+    target = None
+    if ci is not None:
+        for c in ci.mro[1:]:
+            if isinstance(c, _CI):
+                f = c.own_func(method)
+                if f is not None:
+                    target = f
+                    break
+        try:
+            from .flat import flat
+
+            fn = flat(ci.project, ci.module, fn, ci)
+        except Exception:
+            pass
     cfg = CFG(fn)
     va = fn.args.vararg.arg if fn.args.vararg else None
     kw = fn.args.kwarg.arg if fn.args.kwarg else None
 
     def good(c):
-        if not is_super_call(c, method):
+        ok = is_super_call(c, method)
+        if not ok and ci is not None and target is not None and isinstance(c.func, ast.Attribute) and c.func.attr == method and isinstance(c.func.value, ast.Name):
+            base = ci.project.resolve(ci.module, c.func.value.id)
+            if isinstance(base, _CI) and base is not ci and base in ci.mro:
+                _d, f = base.find_method(method)
+                ok = f is target
+        if not ok:
             return False
         return passes_star_args(c, va, kw) if star_args else True
 
@@ -456,7 +495,7 @@ def s_r6_constraints(schema: Schema, rep: Report):
                     ok = any(m.endswith(const) for m in members)
                 rep.check("S-R6", f"{ci.name}.validate_args:member({mode}:{const})", ok, f"no list member class of {ci.name} matches {mode} '{const}' (members: {members})" if not ok else "", f"{ci.mod.relpath}:{node.lineno}")
         has_groups = bool(schema.mutexes(ci, "optionalMutexes") or schema.mutexes(ci, "requiredMutexes"))
-        ok, why = chains_to_super(fn, "validate_args")
+        ok, why = chains_to_super(fn, "validate_args", ci=ci)
         if has_groups:
             rep.check("S-R6", f"{ci.name}.validate_args:chains", ok, f"{ci.name} has mutex groups but its override does not always reach the base check: {why}" if not ok else "", l)
         elif not ok:
